@@ -51,6 +51,15 @@ func (tr *Tr) evalCall(env *CEnv, x *CCall) (Value, types.Type) {
 				return Sc{T: sIte(sLe(a, b), a, b)}, nil
 			}
 			return Sc{T: sIte(sLe(b, a), a, b)}, nil
+		case "sumsize":
+			v, t := tr.evalC(env, x.Args[0])
+			sl := tr.asSl(tr.rval(env, v, t))
+			k := tr.evalInt(env, x.Args[1])
+			et := t.Underlying().(*types.Slice).Elem()
+			return Sc{T: tr.sumSize(env.st, et, sl, k)}, nil
+		case "psize":
+			v, t := tr.evalC(env, x.Args[0])
+			return Sc{T: tr.protoSize(tr.asSc(tr.rval(env, v, t), t).T)}, nil
 		case "cnt":
 			return tr.evalCnt(env, x), nil
 		case "cntsofar":
